@@ -11,4 +11,8 @@ META = {
 
 
 def obligations(tier: str) -> list[Ob]:
-    return skeleton_obs("C03", "endpoint", ["req_"], tier, label="request")
+    obs = skeleton_obs("C03", "endpoint", ["req_"], tier, label="request")
+    for o in obs:
+        if o.name == "request:multipart":
+            o.params["finding_by_func"] = {"req_post_parts_files": "C03-F1"}
+    return obs
